@@ -3,20 +3,92 @@ package main
 import (
 	"context"
 	"fmt"
+	"os"
+	"time"
 
 	openfgav1 "github.com/openfga/api/proto/openfga/v1"
+	"google.golang.org/protobuf/proto"
 
 	"github.com/openfga/openfga/pkg/server"
 	"github.com/openfga/openfga/pkg/storage/memory"
 )
 
+func depth(u *openfgav1.Userset) (int, int) {
+	d, n := 0, 1
+	var stack []*openfgav1.Userset
+	type fr struct {
+		u *openfgav1.Userset
+		d int
+	}
+	st := []fr{{u, 1}}
+	_ = stack
+	n = 0
+	for len(st) > 0 {
+		f := st[len(st)-1]
+		st = st[:len(st)-1]
+		if f.u == nil {
+			continue
+		}
+		n++
+		if f.d > d {
+			d = f.d
+		}
+		switch t := f.u.GetUserset().(type) {
+		case *openfgav1.Userset_Union:
+			for _, k := range t.Union.GetChild() {
+				st = append(st, fr{k, f.d + 1})
+			}
+		case *openfgav1.Userset_Intersection:
+			for _, k := range t.Intersection.GetChild() {
+				st = append(st, fr{k, f.d + 1})
+			}
+		case *openfgav1.Userset_Difference:
+			st = append(st, fr{t.Difference.GetBase(), f.d + 1}, fr{t.Difference.GetSubtract(), f.d + 1})
+		}
+	}
+	return d, n
+}
+
 func main() {
+	b, _ := os.ReadFile(os.Args[1])
+	req := &openfgav1.WriteAuthorizationModelRequest{}
+	if err := (proto.UnmarshalOptions{RecursionLimit: 10000000}).Unmarshal(b, req); err != nil {
+		panic(err)
+	}
+	fmt.Println("bytes", len(b), "types", len(req.GetTypeDefinitions()), "conds", len(req.GetConditions()), "schema", req.GetSchemaVersion())
+	for _, td := range req.GetTypeDefinitions() {
+		for rn, rw := range td.GetRelations() {
+			if d, n := depth(rw); d > 3 {
+				fmt.Printf("  %s#%s rewrite depth %d nodes %d restrictions %v\n", td.GetType(), rn, d, n, td.GetMetadata().GetRelations()[rn].GetDirectlyRelatedUserTypes())
+			}
+		}
+		fmt.Printf("  type %q has %d relations\n", td.GetType(), len(td.GetRelations()))
+	}
+	for n, c := range req.GetConditions() {
+		e := c.GetExpression()
+		if len(e) > 60 {
+			e = e[:60] + "…"
+		}
+		fmt.Printf("  cond %s: %q\n", n, e)
+	}
+	if len(os.Args) > 2 {
+		return
+	}
 	s := server.MustNewServerWithOpts(server.WithDatastore(memory.New()))
 	ctx := context.Background()
 	cs, _ := s.CreateStore(ctx, &openfgav1.CreateStoreRequest{Name: "dbg-store"})
-	for _, tok := range []string{"", "AAAA", "abc", "MDFIVk1NQkNNR1pOVDNTRUQ0WjE3RUNYQ0E="} {
-		_, e1 := s.ListStores(ctx, &openfgav1.ListStoresRequest{ContinuationToken: tok})
-		_, e3 := s.ReadAuthorizationModels(ctx, &openfgav1.ReadAuthorizationModelsRequest{StoreId: cs.GetId(), ContinuationToken: tok})
-		fmt.Printf("token %.20q: ListStores: %v | ReadAuthorizationModels: %v\n", tok, e1, e3)
+	req.StoreId = cs.GetId()
+	start := time.Now()
+	done := make(chan error, 1)
+	go func() { _, err := s.WriteAuthorizationModel(ctx, req); done <- err }()
+	select {
+	case err := <-done:
+		msg := fmt.Sprint(err)
+		if len(msg) > 200 {
+			msg = msg[:200]
+		}
+		fmt.Println("returned after", time.Since(start).Round(time.Millisecond), msg)
+	case <-time.After(200 * time.Second):
+		fmt.Println("NOT returned after 200s")
 	}
 }
